@@ -5,7 +5,7 @@ from symx.fs import FILE
 from .world import World
 from .program import Program, show
 from .common import Driver, veq
-from .skeletons import skeleton, U7, KINDS_SMALL, KINDS_MED
+from .skeletons import skeleton, U7, UN3, KINDS_SMALL, KINDS_MED
 from .mutate import mutate
 
 LEVEL = 'model_checking'
@@ -40,6 +40,7 @@ def families(tier):
         {'name': 'A6', 'params': {'kinds': ['is_dir', 'list_dir'], 'mut_paths': ['in/x', 'o/z']}, 'weight': 3},
         {'name': 'B2', 'params': {'mut_paths': ['o/z'], 'hist': 'BMBB'}, 'weight': 3},
         {'name': 'B8', 'params': {'mut_paths': ['in/x', 'in/y', 'o/f']}, 'weight': 2},
+        {'name': 'N3', 'params': {'hist': 'BBB', 'universe': UN3, 'kinds': ['is_dir', 'list_dir', 'exists'], 'roles': ['o', 'o/d', 'o/m'], 'mut_paths': []}, 'weight': 3},
     ]
     if tier == 'quick':
         return q
@@ -122,7 +123,7 @@ def harness(eng, fam, P):
             prev_outputs = set(d.state.outputs) if w.ref.kind(w.cache) == FILE else set()
             impl, ref = d.build(prog)
             sig = (fam, 'step%d' % si)
-            d.check_same('C05.build', sig)
+            d.guard_same()
             desc.append('B->' + impl[0])
             if impl[0] != 'ok':
                 # a failing root build commits nothing: nothing to say about the next one
